@@ -16,7 +16,7 @@ LEMMA StepType == TypeOK /\ [PNext]_pvars => TypeOK'
   <1> USE EmptyIsMap DEF TypeOK, opened, Handle, pvars
   <1>1. CASE UNCHANGED pvars  BY <1>1
   <1>2. ASSUME NEW k \in Keys, NEW v \in Vals \cup {NB}, NEW o \in Outcomes, Set(k, v, o) PROVE TypeOK'
-        BY <1>2, ValsPositive DEF Set, SetOuts, Maps, NB, Absent
+        BY <1>2, ValsPositive DEF Set, SetOuts, Refusals, Outcomes, Maps, NB, Absent
   <1>3. ASSUME NEW k \in Keys, NEW o \in Outcomes, Get(k, o, GetRes(k, o)) PROVE TypeOK'  BY <1>3 DEF Get
   <1>4. ASSUME NEW k \in Keys, NEW o \in Outcomes, Del(k, o) PROVE TypeOK'  BY <1>4 DEF Del, Maps, KeyOuts, Absent
   <1>5. ASSUME NEW k \in Keys, NEW o \in Outcomes, In(k, o, InRes(k, o)) PROVE TypeOK'  BY <1>5 DEF In
@@ -41,22 +41,22 @@ THEOREM Typed == PSpec => []TypeOK
 (* a dictionary that was built from the caller's dict is stored *)
 LinkedStored == linked => exists
 LEMMA StepLinked == TypeOK /\ LinkedStored /\ [PNext]_pvars => LinkedStored'
-  BY DEF LinkedStored, PNext, Set, Get, Del, In, LenOp, Iter, GetDefault, Clear, Sync, Close, Create, FromDict, MutSrc, Open, Occupy, Reopen, OpenMissing, CreateExisting, CreateFresh, SetOuts, KeyOuts, OpenOuts, CloseOuts, CreateOuts, OpenFileOuts, foreign, opened, Handle, pvars, TypeOK, Maps, Absent, NB, Empty
+  BY DEF LinkedStored, PNext, Set, Get, Del, In, LenOp, Iter, GetDefault, Clear, Sync, Close, Create, FromDict, MutSrc, Open, Occupy, Reopen, OpenMissing, CreateExisting, CreateFresh, SetOuts, Refusals, Outcomes, KeyOuts, OpenOuts, CloseOuts, CreateOuts, OpenFileOuts, foreign, opened, Handle, pvars, TypeOK, Maps, Absent, NB, Empty
 THEOREM Linked == PSpec => [](TypeOK /\ LinkedStored)
   <1>1. PInit => LinkedStored  BY DEF PInit, LinkedStored
   <1>. QED  BY <1>1, InitType, StepType, StepLinked, PTL DEF PSpec
 
 (* ---- the action clauses, each from TypeOK and one step ---- *)
 LEMMA StepClosedInert == TypeOK /\ [PNext]_pvars => ((st = "closed" /\ st' = "closed") => (d' = d /\ onDisk' = onDisk /\ exists' = exists))
-  BY DEF PNext, Set, Get, Del, In, LenOp, Iter, GetDefault, Clear, Sync, Close, Create, FromDict, MutSrc, Open, Occupy, Reopen, OpenMissing, CreateExisting, CreateFresh, SetOuts, KeyOuts, OpenOuts, CloseOuts, CreateOuts, OpenFileOuts, foreign, opened, Handle, pvars, TypeOK, Maps, Absent, NB, Empty
+  BY DEF PNext, Set, Get, Del, In, LenOp, Iter, GetDefault, Clear, Sync, Close, Create, FromDict, MutSrc, Open, Occupy, Reopen, OpenMissing, CreateExisting, CreateFresh, SetOuts, Refusals, Outcomes, KeyOuts, OpenOuts, CloseOuts, CreateOuts, OpenFileOuts, foreign, opened, Handle, pvars, TypeOK, Maps, Absent, NB, Empty
 LEMMA StepClosePersists == TypeOK /\ [PNext]_pvars => ((st = "open" /\ st' = "closed") => onDisk' = d)
-  BY DEF PNext, Set, Get, Del, In, LenOp, Iter, GetDefault, Clear, Sync, Close, Create, FromDict, MutSrc, Open, Occupy, Reopen, OpenMissing, CreateExisting, CreateFresh, SetOuts, KeyOuts, OpenOuts, CloseOuts, CreateOuts, OpenFileOuts, foreign, opened, Handle, pvars, TypeOK, Maps, Absent, NB, Empty
+  BY DEF PNext, Set, Get, Del, In, LenOp, Iter, GetDefault, Clear, Sync, Close, Create, FromDict, MutSrc, Open, Occupy, Reopen, OpenMissing, CreateExisting, CreateFresh, SetOuts, Refusals, Outcomes, KeyOuts, OpenOuts, CloseOuts, CreateOuts, OpenFileOuts, foreign, opened, Handle, pvars, TypeOK, Maps, Absent, NB, Empty
 LEMMA StepOpenLoads == TypeOK /\ [PNext]_pvars => ((st # "open" /\ st' = "open" /\ exists) => d' = onDisk)
-  BY DEF PNext, Set, Get, Del, In, LenOp, Iter, GetDefault, Clear, Sync, Close, Create, FromDict, MutSrc, Open, Occupy, Reopen, OpenMissing, CreateExisting, CreateFresh, SetOuts, KeyOuts, OpenOuts, CloseOuts, CreateOuts, OpenFileOuts, foreign, opened, Handle, pvars, TypeOK, Maps, Absent, NB, Empty
+  BY DEF PNext, Set, Get, Del, In, LenOp, Iter, GetDefault, Clear, Sync, Close, Create, FromDict, MutSrc, Open, Occupy, Reopen, OpenMissing, CreateExisting, CreateFresh, SetOuts, Refusals, Outcomes, KeyOuts, OpenOuts, CloseOuts, CreateOuts, OpenFileOuts, foreign, opened, Handle, pvars, TypeOK, Maps, Absent, NB, Empty
 LEMMA StepSrcIndependent == TypeOK /\ LinkedStored /\ [PNext]_pvars => (src' # src /\ linked => UNCHANGED <<d, st, onDisk, exists>>)
-  BY DEF LinkedStored, PNext, Set, Get, Del, In, LenOp, Iter, GetDefault, Clear, Sync, Close, Create, FromDict, MutSrc, Open, Occupy, Reopen, OpenMissing, CreateExisting, CreateFresh, SetOuts, KeyOuts, OpenOuts, CloseOuts, CreateOuts, OpenFileOuts, foreign, opened, Handle, pvars, TypeOK, Maps, Absent, NB, Empty
+  BY DEF LinkedStored, PNext, Set, Get, Del, In, LenOp, Iter, GetDefault, Clear, Sync, Close, Create, FromDict, MutSrc, Open, Occupy, Reopen, OpenMissing, CreateExisting, CreateFresh, SetOuts, Refusals, Outcomes, KeyOuts, OpenOuts, CloseOuts, CreateOuts, OpenFileOuts, foreign, opened, Handle, pvars, TypeOK, Maps, Absent, NB, Empty
 LEMMA StepExistsMonotone == TypeOK /\ [PNext]_pvars => (exists => exists')
-  BY DEF PNext, Set, Get, Del, In, LenOp, Iter, GetDefault, Clear, Sync, Close, Create, FromDict, MutSrc, Open, Occupy, Reopen, OpenMissing, CreateExisting, CreateFresh, SetOuts, KeyOuts, OpenOuts, CloseOuts, CreateOuts, OpenFileOuts, foreign, opened, Handle, pvars, TypeOK, Maps, Absent, NB, Empty
+  BY DEF PNext, Set, Get, Del, In, LenOp, Iter, GetDefault, Clear, Sync, Close, Create, FromDict, MutSrc, Open, Occupy, Reopen, OpenMissing, CreateExisting, CreateFresh, SetOuts, Refusals, Outcomes, KeyOuts, OpenOuts, CloseOuts, CreateOuts, OpenFileOuts, foreign, opened, Handle, pvars, TypeOK, Maps, Absent, NB, Empty
 
 THEOREM C20ClosedInert == PSpec => ClosedInert
   <1>1. TypeOK /\ [PNext]_pvars => [(st = "closed" /\ st' = "closed") => (d' = d /\ onDisk' = onDisk /\ exists' = exists)]_pvars  BY StepClosedInert
